@@ -292,6 +292,31 @@ theorem C13_any_refusal_unchanged (op : Op) : ∀ (t : Ty) (s : Slice) (o : OpOu
       | fault f => rw [hrange] at h; simp at h
     case vec et l => exact vec_dispatch _ _ _ _ _ h hr
     case str l => exact vec_dispatch _ _ _ _ _ h hr
+  | last op ih =>
+    intro t s o h hr
+    cases t <;> simp only [applyOp] at h <;> try (cases h; done)
+    case ustruct fs lastT =>
+      split at h
+      · cases h
+      · cases hin : applyOp op lastT ⟨s.addr + ceilMul (foldSize (dictL fs) 0) lastT.dict.align,
+            (s.bytes.take (floorMul s.len (alignL (dictL fs ++ [lastT.dict])))).drop (ceilMul (foldSize (dictL fs) 0) lastT.dict.align)⟩ with
+        | ok o' =>
+          rw [hin, Res.bind_ok] at h
+          cases h
+          have := ih lastT _ o' hin hr
+          simp only at this ⊢
+          rw [this]
+          -- take lfo ++ drop lfo (take n) ++ drop n = bytes, as lfo ≤ n
+          rename_i hle
+          have hle' : ceilMul (foldSize (dictL fs) 0) lastT.dict.align ≤ floorMul s.len (alignL (dictL fs ++ [lastT.dict])) := by omega
+          have h1 : s.bytes.take (ceilMul (foldSize (dictL fs) 0) lastT.dict.align) =
+              (s.bytes.take (floorMul s.len (alignL (dictL fs ++ [lastT.dict])))).take (ceilMul (foldSize (dictL fs) 0) lastT.dict.align) := by
+            rw [List.take_take, Nat.min_eq_left hle']
+          rw [h1, List.take_append_drop, List.take_append_drop]
+        | err e => rw [hin] at h; simp at h
+        | fault f => rw [hin] at h; simp at h
+    case vec et l => exact vec_dispatch _ _ _ _ _ h hr
+    case str l => exact vec_dispatch _ _ _ _ _ h hr
   | assign i =>
     intro t s o h hr
     simp only [applyOp] at h
